@@ -34,8 +34,8 @@ contract("BaseComponent.initialize", props=["C14", "C08"],
              ("placement", "implies(state_info, self.placed_workplace is None and self.error == 0.0)"),
              ("logs", "implies(log_info, len(self.state_record_list) == 0 and len(self.placed_workplace_id_record) == 0)"),
              ("keep-state", "implies(not state_info, self.state == old(self.state) and self.placed_workplace is old(self.placed_workplace) and self.error == old(self.error))"),
-             ("keep-logs", "implies(not log_info, seq_eq(self.state_record_list, old(self.state_record_list))"
-                           " and seq_eq(self.placed_workplace_id_record, old(self.placed_workplace_id_record)))"),
+             ("keep-logs", "implies(not log_info, same(self.state_record_list, old(self.state_record_list))"
+                           " and same(self.placed_workplace_id_record, old(self.placed_workplace_id_record)))"),
          ],
          modifies=["BaseComponent.state@self", "BaseComponent.placed_workplace@self", "BaseComponent.error@self",
                    "BaseComponent.state_record_list@self", "BaseComponent.placed_workplace_id_record@self"])
